@@ -145,6 +145,7 @@ type session struct {
 
 	stored   map[blob.Ref][]byte // content legitimately present under each ref
 	rejNever map[blob.Ref]bool   // refs rejected while never stored
+	broken   map[blob.Ref]bool   // accepted but found unreadable (already reported): not re-reported by later views
 	accepted map[blob.Ref]int    // accepted attempts per ref through a hub-notifying path
 	accTot   int
 
@@ -188,7 +189,7 @@ func newSession(r *ev.Run, root, id string, spec *sto.Spec, path string) (*sessi
 	}
 	s := &session{r: r, id: id, spec: spec, label: labelOf(spec), path: path, dir: dir, b: b,
 		rng:    r.Rand("session/" + id + "/" + spec.String() + "/" + path),
-		stored: map[blob.Ref][]byte{}, rejNever: map[blob.Ref]bool{}, accepted: map[blob.Ref]int{}}
+		stored: map[blob.Ref][]byte{}, rejNever: map[blob.Ref]bool{}, accepted: map[blob.Ref]int{}, broken: map[blob.Ref]bool{}}
 	s.rec = sessRec{CaseID: id + ";", Backend: spec.String(), Path: path}
 	s.attach(b.S)
 	return s, nil
@@ -402,6 +403,15 @@ func (s *session) judge(of *offer, out outcome, hookBefore int, a *attemptRec) {
 			// resynchronise the model with what is really there
 			if f.present {
 				delete(s.rejNever, of.Ref)
+			} else if sz, ok, _ := statFrom(st, of.Ref); ok {
+				// stored in some unreadable form: keep the model in step, report nothing twice
+				delete(s.rejNever, of.Ref)
+				n := int(sz)
+				if n > len(of.Data) {
+					n = len(of.Data)
+				}
+				s.stored[of.Ref] = of.Data[:n]
+				s.broken[of.Ref] = true
 			}
 			if f.present && hashMatches(of.Ref, f.data) {
 				s.stored[of.Ref] = f.data
@@ -410,7 +420,10 @@ func (s *session) judge(of *offer, out outcome, hookBefore int, a *attemptRec) {
 				s.stored[of.Ref] = f.data
 			}
 		} else {
-			if !f.present || !bytes.Equal(f.data, of.Data) || int(f.size) != len(of.Data) {
+			if s.broken[of.Ref] {
+				// already reported when it was first accepted
+			} else if !f.present || !bytes.Equal(f.data, of.Data) || int(f.size) != len(of.Data) {
+				s.broken[of.Ref] = true
 				s.viol("accepted-not-stored/"+s.site(), "offer %s (%d bytes) was accepted, but fetch gives present=%v, %d bytes (size %d), err=%v",
 					of.RefStr, len(of.Data), f.present, len(f.data), f.size, f.err)
 			}
@@ -439,7 +452,7 @@ func (s *session) judge(of *offer, out outcome, hookBefore int, a *attemptRec) {
 			r.Eval(1)
 			if orig, ok := s.stored[of.Ref]; ok {
 				// a corrupt re-upload of a stored blob must leave the stored bytes alone
-				if !f.present || !bytes.Equal(f.data, orig) {
+				if !s.broken[of.Ref] && (!f.present || !bytes.Equal(f.data, orig)) {
 					s.viol("trace-after-reject/overwrite/"+s.site(), "after the rejected offer (%s %s) under stored ref %s, fetch gives present=%v %d bytes (err=%v) instead of the %d stored bytes",
 						of.Mut, of.Arg, of.RefStr, f.present, len(f.data), f.err, len(orig))
 				}
@@ -662,6 +675,9 @@ func hasKindDeep(s *sto.Spec, kind string) bool {
 // every rejected-never-stored ref absent, enumeration equal.
 func (s *session) checkWhole(view string, st blobserver.Storage) {
 	for ref, data := range s.stored {
+		if s.broken[ref] {
+			continue
+		}
 		f := fetchFrom(st, ref)
 		s.r.Eval(1)
 		if !f.present || !bytes.Equal(f.data, data) {
